@@ -12,6 +12,7 @@ const (
 	propC01 = 1
 	propC05 = 5
 	propC03 = 3
+	propC16 = 16
 )
 
 const (
@@ -398,7 +399,9 @@ func (m *mutScene) checkC05(k int, res bool) {
 
 // ---------- C03 relations ----------
 
-func (m *mutScene) checkC03(k int) {
+// checkNumbers: the part of the innovation bookkeeping that must hold under the sequential AND the parallel executor
+// (it does not rely on numbers being consecutive or on the record being free of duplicates).
+func (m *mutScene) checkNumbers(tag string) {
 	g := m.g
 	// numbers and ids issued now are larger than any the population held before
 	okNew := true
@@ -411,7 +414,7 @@ func (m *mutScene) checkC03(k int) {
 			okNew = vAnd(okNew, vOr(fromRecord, int(gn.InnovationNum) > m.nextInnov0))
 		}
 	}
-	vAssert(okNew, "C03: a new gene carries a number from this generation's record or a number larger than any held before")
+	vAssert(okNew, tag+": a new gene carries a number from this generation's record or a number larger than any held before")
 	okNode := true
 	for _, n := range g.Nodes {
 		if !isOld(n, m.oldNodes) {
@@ -420,10 +423,10 @@ func (m *mutScene) checkC03(k int) {
 				fromRecord = vOr(fromRecord, vAnd(r.innovationType == newNodeInnType, n.Id == r.NewNodeId))
 			}
 			okNode = vAnd(okNode, vOr(fromRecord, n.Id > m.nextNode))
-			vAssert(n.NeuronType == network.HiddenNeuron, "C03: a node id issued by a mutation denotes a hidden node")
+			vAssert(n.NeuronType == network.HiddenNeuron, tag+": a node id issued by a mutation denotes a hidden node")
 		}
 	}
-	vAssert(okNode, "C03: a new node carries the id from this generation's record or an id larger than any held before")
+	vAssert(okNode, tag+": a new node carries the id from this generation's record or an id larger than any held before")
 	// counters never fall behind what is in use
 	inUse := true
 	for _, gn := range g.Genes {
@@ -432,7 +435,7 @@ func (m *mutScene) checkC03(k int) {
 	for _, n := range g.Nodes {
 		inUse = vAnd(inUse, n.Id <= int(m.pop.nextNodeId))
 	}
-	vAssert(inUse, "C03: the population counters are at least every number/id in use")
+	vAssert(inUse, tag+": the population counters are at least every number/id in use")
 	// equal number => equal link, over the genome, the record (old and new entries)
 	recs := m.pop.Innovations()
 	cons := true
@@ -447,7 +450,7 @@ func (m *mutScene) checkC03(k int) {
 			}
 		}
 	}
-	vAssert(cons, "C03: a gene numbered like a recorded innovation is that innovation's link")
+	vAssert(cons, tag+": a gene numbered like a recorded innovation is that innovation's link")
 	// numbers inside the record are pairwise distinct
 	distinct := true
 	nums := func(r Innovation) []int64 {
@@ -465,7 +468,13 @@ func (m *mutScene) checkC03(k int) {
 			}
 		}
 	}
-	vAssert(distinct, "C03: recorded innovations carry pairwise distinct numbers")
+	vAssert(distinct, tag+": recorded innovations carry pairwise distinct numbers")
+}
+
+func (m *mutScene) checkC03(k int) {
+	m.checkNumbers("C03")
+	g := m.g
+	recs := m.pop.Innovations()
 	// identical structural innovations arising in the same generation receive identical numbers: the record never
 	// holds two entries for the same new link or for the same split of the same gene
 	once := true
@@ -518,6 +527,8 @@ func vcMut(prop int, k int, c tmplCfg, record int) {
 		m.checkC05(k, res)
 	case propC03:
 		m.checkC03(k)
+	case propC16:
+		m.checkNumbers("C16 step")
 	}
 	vReach("end")
 }
